@@ -5,6 +5,7 @@
 //! Exit codes: 0 held (known findings only), 1 violation, 2 inconclusive / infrastructure.
 
 mod audit;
+mod crashsim;
 mod dbx;
 mod engine;
 mod panics;
